@@ -48,9 +48,17 @@ pub fn to_hex(bytes: &[u8]) -> String {
     s
 }
 
+/// Hex, `-` (empty), or the compact run notation `~TTxN` = the N bytes `TT, TT+1, ...` (wrapping),
+/// which keeps the op lines of very large payloads short (the Lean driver parses the same form).
 pub fn from_hex(s: &str) -> Option<Vec<u8>> {
     if s == "-" {
         return Some(Vec::new());
+    }
+    if let Some(rest) = s.strip_prefix('~') {
+        let (t, n) = rest.split_once('x')?;
+        let tag = u8::from_str_radix(t, 16).ok()?;
+        let n: usize = n.parse().ok()?;
+        return Some((0..n).map(|k| tag.wrapping_add(k as u8)).collect());
     }
     if s.len() % 2 != 0 {
         return None;
@@ -63,6 +71,11 @@ pub fn from_hex(s: &str) -> Option<Vec<u8>> {
         out.push((hi * 16 + lo) as u8);
     }
     Some(out)
+}
+
+/// The compact spelling of `run_bytes(tag, n)` accepted by `from_hex`.
+pub fn run_token(tag: u8, n: usize) -> String {
+    if n == 0 { "-".to_string() } else { format!("~{:02x}x{}", tag, n) }
 }
 
 pub fn nat_list(xs: &[usize]) -> String {
